@@ -31,17 +31,19 @@ func cidOf(s string) []byte {
 }
 
 // sendAll: amount such that amount + fee (+delta) == balance.
+// sendRel builds the send that sits on the admission boundary of the sender's balance: the pool and the
+// block rules both require balance >= amount + maxFee (+ tips), so the amount is balance - maxFee + delta with
+// the tightest admissible maxFee. delta 0 is the largest admissible amount (what is left afterwards is maxFee
+// minus the fee actually charged: nothing or dust), +1 is refused by one unit, -1 is admissible with one unit
+// to spare. (The template names keep their historical "bal-fee" spelling.)
 func sendRel(from, to int, delta int64) func(b *B) *types.Transaction {
 	return func(b *B) *types.Transaction {
 		s := Spec{From: from, To: PA(to), Type: types.SendTx, Amount: big.NewInt(1)}
-		f := b.ExactFee(s)
-		amt := sub(b.Bal(from), f)
-		amt = new(big.Int).Add(amt, big.NewInt(delta))
-		if amt.Sign() < 0 {
+		mf, amt := b.TightMaxFee(s, true, delta)
+		if amt.Sign() <= 0 {
 			return nil
 		}
-		s.Amount = amt
-		s.MaxFee = new(big.Int).Mul(f, big.NewInt(2))
+		s.Amount, s.MaxFee = amt, mf
 		return b.Tx(s)
 	}
 }
@@ -107,9 +109,7 @@ func Menu() []Tmpl {
 		}},
 		{"burn X2 bal key=k", func(b *B) *types.Transaction {
 			s := Spec{From: X2, Type: types.BurnTx, Amount: big.NewInt(1), Payload: attachments.CreateBurnAttachment("k")}
-			f := b.ExactFee(s)
-			s.Amount = sub(b.Bal(X2), f)
-			s.MaxFee = new(big.Int).Mul(f, big.NewInt(2))
+			s.MaxFee, s.Amount = b.TightMaxFee(s, true, 0) // the largest amount the balance rule (amount + maxFee) admits
 			return b.Tx(s)
 		}},
 		{"burn X1 empty key", func(b *B) *types.Transaction {
@@ -120,9 +120,7 @@ func Menu() []Tmpl {
 		}},
 		{"replenish X1->D2 bal", func(b *B) *types.Transaction {
 			s := Spec{From: X1, To: PA(D2), Type: types.ReplenishStakeTx, Amount: big.NewInt(1)}
-			f := b.ExactFee(s)
-			s.Amount = sub(b.Bal(X1), f)
-			s.MaxFee = new(big.Int).Mul(f, big.NewInt(2))
+			s.MaxFee, s.Amount = b.TightMaxFee(s, true, 0) // the largest amount the balance rule (amount + maxFee) admits
 			return b.Tx(s)
 		}},
 		{"replenish X1->K (killed)", func(b *B) *types.Transaction {
